@@ -552,6 +552,11 @@ def run(res, facts, tier):
 
 
 # ----------------------------------------------------------------------------------------------- R7: "white space only" is a function of the characters
+def _ek(x):
+    x = strip_casts(x) or {}
+    return (x.get('d'), x.get('id')) if x.get('k') == 'Ref' and x.get('d') in ('param', 'local') else ('expr', pp(x))
+
+
 def r7_whitespace_flag(res, facts):
     """The strip decision starts from XalanText::isWhitespace().  In the default source tree that answer is the CLASS of the text node, chosen when the node is built:
     XalanSourceTreeTextIWS answers true, XalanSourceTreeText false.  So a plain text node may be created only for text that is not all white space - decided from the
@@ -604,6 +609,74 @@ def r7_whitespace_flag(res, facts):
                             'isXMLWhitespace(chars, 0, length) == false over the characters given, so xsl:strip-space never strips that node', common.file_line(a, c))
     if n == 0:
         raise AnalysisBroken('XalanSourceTreeDocument creates no plain text node through m_textAllocator any more')
+    # the other direction: the white-space class only for text that IS all white space - decided over the very characters the node gets, or vouched for by the parser
+    # (SAX ignorableWhitespace).  A flag computed earlier (from the first of several character events, say) is not that.
+    def ws_true_over(cfg, must, node, a0, a1):
+        for at, br in (must.get(node.id, []) if node is not None else []):
+            core, eff = common.norm_atom(at, br)
+            if core is not None and core.get('k') == 'Call' and (core.get('n') or callee(core).split('::')[-1]) == 'isXMLWhitespace' and eff:
+                args = [strip_casts(x) for x in core.get('args', [])]
+                if len(args) == 3 and _ek(args[0]) == a0 and args[1].get('cv') == 0 and _ek(args[2]) == a1:
+                    return True
+        return False
+    m2 = 0
+    unguarded = {}          # members of XalanSourceTreeDocument that create the white-space class for whatever they are given: {name: ast}
+    for k in facts.astidx:
+        f = facts.F.get(k)
+        if not f or short(f.get('cls') or '') != 'XalanSourceTreeDocument':
+            continue
+        a = facts.ast(k)
+        if a is None or a.get('body') is None:
+            continue
+        cfg = None
+        for c in calls(a['body']):
+            o = strip_casts(c.get('obj'))
+            if (c.get('n') or '') != 'create' or o is None or o.get('k') != 'Member' or o.get('m') != 'm_textIWSAllocator':
+                continue
+            m2 += 1
+            if cfg is None:
+                cfg = CFG(a); must = common.must_conds(cfg)
+            node = next((nd for nd in cfg.nodes if nd.ast is not None and any(y is c for y in walk(nd.ast))), None)
+            ps = a['params'][:2]
+            a0 = ('param', ps[0].get('id')) if len(ps) == 2 else None
+            a1 = ('param', ps[1].get('id')) if len(ps) == 2 else None
+            if a0 and ws_true_over(cfg, must, node, a0, a1):
+                r.ok('%s: white-space text node' % short(facts.name[k]), 'only where isXMLWhitespace(chars, 0, length) is true')
+            else:
+                unguarded[(a.get('fq') or '').split('::')[-1]] = a
+    if m2 == 0:
+        raise AnalysisBroken('XalanSourceTreeDocument creates no white-space text node through m_textIWSAllocator any more')
+    sites = 0
+    for k in facts.astidx:
+        f = facts.F.get(k)
+        if not f or '/src/xalanc/' not in f.get('loc', '') or '/Tests/' in f.get('loc', '') or '/Harness/' in f.get('loc', ''):
+            continue
+        a = facts.ast(k)
+        if a is None or a.get('body') is None:
+            continue
+        cs = [c for c in calls(a['body']) if c.get('k') == 'MCall' and c.get('n') in unguarded and len(c.get('args', [])) >= 2 and 'XalanSourceTreeDocument' in (c.get('cls') or '')]
+        if not cs:
+            continue
+        cfg = CFG(a); must = common.must_conds(cfg)
+        fnname = (a.get('fq') or '').split('::')[-1]
+        for c in cs:
+            sites += 1
+            site = '%s: %s' % (short(facts.name[k]), c['n'])
+            args = [strip_casts(x) for x in c['args'][:2]]
+            own = [p.get('id') for p in a['params'][:2]]
+            if fnname == 'ignorableWhitespace' and len(own) == 2 and [x.get('id') for x in args] == own and all(x.get('d') == 'param' for x in args):
+                r.ok(site, 'the characters of a SAX ignorableWhitespace event: the parser vouches for them')
+                continue
+            node = next((nd for nd in cfg.nodes if nd.ast is not None and any(y is c for y in walk(nd.ast))), None)
+            if ws_true_over(cfg, must, node, _ek(args[0]), _ek(args[1])):
+                r.ok(site, 'only where isXMLWhitespace over the same characters is true')
+            else:
+                r.violation('%s: white-space text node for unchecked text' % short(facts.name[k]),
+                            '%s(%s, %s, ...) builds a node whose isWhitespace() is constantly true; the call is neither in an ignorableWhitespace handler on its own arguments nor '
+                            'dominated by isXMLWhitespace(%s, 0, %s) == true: text that is not all white space (decided from an earlier flag, from the first of several character '
+                            'events) would be stripped by xsl:strip-space' % (c['n'], pp(args[0]), pp(args[1]), pp(args[0]), pp(args[1])), common.file_line(a, c))
+    if unguarded and sites < 3:
+        raise AnalysisBroken('only %d callers of %s found (3 confirmed by hand)' % (sites, sorted(unguarded)))
     return r
 
 
